@@ -99,6 +99,7 @@ class Ranges:
         self.resolver = resolver
         self.is_complex = is_complex  # predicate: atom may hold complex numbers
         self._loop_memo = {}
+        self.unknown = []             # constructs without a model met on the way (range there is TOP)
 
     def complex_valued(self, v):
         """May the term be complex?  abs(.) and real(.)/imag(.) results are real."""
@@ -156,6 +157,7 @@ class Ranges:
             return self.atom(a[1]) if a[1][0] != 'val' else TOP
         if k == 'app':
             return self.app(a[1], a[2])
+        self.unknown.append(nf.fmt_atom(a)[:80])
         return TOP
 
     def app(self, name, args):
@@ -235,8 +237,20 @@ class Ranges:
             return join(rest, rv)
         if name in ('poisson',) or name.endswith('.poisson') or name == 'm:poisson':
             return Rng(0, INF, True)
-        if name.startswith('call:') and self.resolver is not None:
-            return TOP
+        if name == 'functools.reduce' and len(args) >= 2:
+            fa = args[0].single_atom() if isinstance(args[0], Poly) else None
+            which = None
+            if fa is not None and fa[0] == 'val' and isinstance(fa[1], Const) and isinstance(fa[1].value, tuple):
+                which = {'numpy.minimum': 'min', 'numpy.maximum': 'max'}.get(fa[1].value[1])
+            seq = args[1].single_atom() if isinstance(args[1], Poly) else None
+            if which and seq is not None and seq[0] == 'app' and seq[1] == 'listcomp':
+                parts = [self.of(seq[2][0])] + ([self.of(args[2])] if len(args) > 2 and isinstance(args[2], Poly) else [])
+                f = min if which == 'min' else max
+                vals = None
+                if all(r.values is not None for r in parts):
+                    vals = frozenset().union(*[r.values for r in parts])
+                return Rng(f(r.lo for r in parts), f(r.hi for r in parts), all(r.integer for r in parts), vals)
+        self.unknown.append(f'{name}(...)')
         return TOP
 
     def loop_atom(self, a):
